@@ -6,6 +6,7 @@ From VQ Require Import Num Model.Vec Model.Core Model.Residual Proofs.CoreNeares
 From VQ Require Import Model.Einops Model.Layout Glue.EinopsGlueBase Glue.EinopsGlueMore.
 From VQ Require Import Model.Machine Model.History Proofs.HistoryProofs.
 From VQ Require Import Glue.Pin_fp_C02.
+From VQ Require Import Model.Memo Proofs.MemoProofs Glue.Pin_p_simvq_codebook.
 Import ListNotations.
 Open Scope R_scope.
 
@@ -192,3 +193,22 @@ Theorem C02_tie_source_footprint :
   fp_C02.fp_C02 = pinned_fp_C02.
 Proof. exact (@Pin_fp_C02.pin_fp_C02). Qed.
 Print Assumptions C02_tie_source_footprint.
+
+Theorem C02_derived_codebook_calls_use_current_parameters :
+  forall (P C : Type) (f : P -> C) (h : list (mop P)) (s : mstate P C),
+       Forall (fun pc : P * C => snd pc = f (fst pc)) (run P C (step_plain P C f) s h).
+Proof. exact (@MemoProofs.plain_calls_use_current). Qed.
+Print Assumptions C02_derived_codebook_calls_use_current_parameters.
+
+Theorem C02_memoised_derived_codebook_refuted :
+  forall (P C : Type) (f : P -> C) (p p' : P),
+       f p <> f p' ->
+       exists (h : list (mop P)) (s : mstate P C),
+         ~ Forall (fun pc : P * C => snd pc = f (fst pc)) (run P C (step_memo P C f) s h).
+Proof. exact (@MemoProofs.memo_refuted). Qed.
+Print Assumptions C02_memoised_derived_codebook_refuted.
+
+Theorem C02_tie_simvq_codebook_derivation_pinned :
+  p_simvq_codebook.p_simvq_codebook = pinned_p_simvq_codebook.
+Proof. exact (@Pin_p_simvq_codebook.pin_p_simvq_codebook). Qed.
+Print Assumptions C02_tie_simvq_codebook_derivation_pinned.
